@@ -349,6 +349,10 @@ class on_key(Contract):
     qualname = CLS + ".on_key_press"
     props = ("C16",)
     generic_replay = False
+    bounded_driver = {"driver": "c16_dialog", "inputs": {}}
+
+    def witness(self, o):
+        return dict(self.bounded_driver)
 
     def setup(self, c):
         ev = Obj("matplotlib.KeyEvent", {"key": "shift" if c.branch(S.boolean("is_shift")) else "control"})
@@ -365,6 +369,10 @@ class on_key_release(Contract):
     qualname = CLS + ".on_key_release"
     props = ("C16",)
     generic_replay = False
+    bounded_driver = {"driver": "c16_dialog", "inputs": {}}
+
+    def witness(self, o):
+        return dict(self.bounded_driver)
 
     def setup(self, c):
         ev = Obj("matplotlib.KeyEvent", {"key": "shift" if c.branch(S.boolean("is_shift")) else "control"})
@@ -413,6 +421,10 @@ def _mainloop(fr, obj, args, kwargs):
 class _Init(Contract):
     qualname = CLS + ".__init__"
     props = ("C16",)
+    bounded_driver = {"driver": "c16_dialog", "inputs": {}}
+
+    def witness(self, o):
+        return dict(self.bounded_driver)
     generic_replay = False
     callable_modular = False
     compare_state = False
